@@ -1,15 +1,18 @@
 (* Run/C12.v — Sx codec around Model/CompilerCache.v for the correspondence check.
    case   = ( op ... )      op = ( swap d n b m ) | ( retarget d n d2 n2 ) | ( remove d n )
-                                 | ( touch d n m ) | ( compile d n src )
+                                 | ( touch d n m ) | ( compile d n src ) | ( compile d n src ( envop ... ) )
+                            envop = swap / retarget / remove / touch as above: what happens to the file
+                                    system WHILE the request's detection probe runs
    result = ( ev ... )      one per compile op
-   ev     = ( outcome producer cur detected ( (id mode) ... ) )       (see harness/src/bin/c12.rs)
-   legs:  inproc / e2e = the code after the fix (legacy = false);  legacy = the code as found.
+   ev     = ( outcome producer cur detected ( (id mode) ... ) cur0 )  (see harness/src/bin/c12.rs)
+   legs:  inproc / e2e = the variant the translator read off the tree (Gen/C12Window.v);
+          fixed / asfound / legacy / earlylate = the named variant.
    Instances of the external functions: bytes ids < 100 are working compilers whose
    identity digest is 1000 + id; ids >= 100 are not compilers.  H is an injective pairing. *)
 From Coq Require Import List NArith Bool.
 From Coq Require String.
 Import String.StringSyntax.
-From Sccache Require Import Base.Sx Model.CompilerCache.
+From Sccache Require Import Base.Sx Model.CompilerCache Gen.C12Window.
 Import ListNotations.
 Local Open Scope N_scope.
 Local Open Scope string_scope.
@@ -21,11 +24,41 @@ Definition norm_d (d : N) : N := d mod 8.
 Definition norm_n (n : N) : N := n mod 3.
 Definition mkpath (d n : sx) : path := (norm_d (get_N d), norm_n (get_N n)).
 
+Definition dec_eop (x : sx) : option eop :=
+  match x with
+  | SL [t; d; n; a; b] =>
+      if is_sym "swap" t then Some (ESwap (mkpath d n) (get_N a) (get_N b))
+      else if is_sym "retarget" t then Some (ERetarget (mkpath d n) (mkpath a b))
+      else None
+  | SL [t; d; n; a] =>
+      if is_sym "touch" t then Some (ETouch (mkpath d n) (get_N a)) else None
+  | SL [t; d; n] =>
+      if is_sym "remove" t then Some (ERemove (mkpath d n)) else None
+  | _ => None
+  end.
+
+Fixpoint dec_eops (l : list sx) : option (list eop) :=
+  match l with
+  | [] => Some []
+  | x :: r => match dec_eop x, dec_eops r with
+              | Some o, Some os => Some (o :: os)
+              | _, _ => None
+              end
+  end.
+
 Definition dec_op (x : sx) : option op :=
   match x with
   | SL [t; d; n; a; b] =>
       if is_sym "swap" t then Some (Swap (mkpath d n) (get_N a) (get_N b))
       else if is_sym "retarget" t then Some (Retarget (mkpath d n) (mkpath a b))
+      else if is_sym "compile" t then
+        match b with
+        | SL env => match dec_eops env with
+                    | Some es => Some (CompileW (mkpath d n) (get_N a mod 4) es)
+                    | None => None
+                    end
+        | _ => None
+        end
       else None
   | SL [t; d; n; a] =>
       if is_sym "touch" t then Some (Touch (mkpath d n) (get_N a))
@@ -54,9 +87,10 @@ Definition enc_event (e : event) : sx :=
                     | OHit p => (sym "hit", p)
                     | OMiss p => (sym "miss", p)
                     end in
-  let cur := match e_cur e with Some (b, m) => SL [SN b; SN m] | None => SL [] end in
+  let enc_cur c := match c with Some (b, m) => SL [SN b; SN m] | None => SL [] end in
+  let cur := enc_cur (e_cur e) in
   let dlog := if e_detected e
-              then match e_cur e with
+              then match e_cur0 e with
                    | Some (b, _) => [SL [SN b; sym (if is_cc b then "D" else "X")]]
                    | None => []
                    end
@@ -68,20 +102,23 @@ Definition enc_event (e : event) : sx :=
                   else [SL [SN x; sym "X"]]
               | None => []
               end in
-  SL [o; SN prod; cur; sbool (e_detected e); SL (dlog ++ rlog)].
+  SL [o; SN prod; cur; sbool (e_detected e); SL (dlog ++ rlog); enc_cur (e_cur0 e)].
 
-Definition run_c12 (legacy : bool) (x : sx) : sx :=
+Definition run_c12 (v : variant) (x : sx) : sx :=
   match x with
   | SL ops =>
       match dec_ops ops with
-      | Some os => SL (map enc_event (exec detect0 H0 legacy (start []) os))
+      | Some os => SL (map enc_event (exec detect0 H0 v (start []) os))
       | None => err "bad op"
       end
   | _ => err "bad case"
   end.
 
 Definition dispatch (leg : list N) (x : sx) : sx :=
-  if bytes_eqb leg (bs "inproc") then run_c12 false x
-  else if bytes_eqb leg (bs "e2e") then run_c12 false x
-  else if bytes_eqb leg (bs "legacy") then run_c12 true x
+  if bytes_eqb leg (bs "inproc") then run_c12 tree_variant x
+  else if bytes_eqb leg (bs "e2e") then run_c12 tree_variant x
+  else if bytes_eqb leg (bs "fixed") then run_c12 VFixed x
+  else if bytes_eqb leg (bs "asfound") then run_c12 VAsFound x
+  else if bytes_eqb leg (bs "legacy") then run_c12 VLegacy x
+  else if bytes_eqb leg (bs "earlylate") then run_c12 VEarlyLate x
   else err "unknown leg".
